@@ -810,6 +810,9 @@ impl UntypedStmt {
                         }
                         let pattern =
                             pattern.type_check(env, fns, defs, Some(binding.ty.clone()))?;
+                        // the pattern of a `let` must match every value of the type
+                        check_exhaustiveness(&[&pattern], &binding.ty, defs, meta)
+                            .map_err(|e| vec![Some(e)])?;
                         Ok(Stmt::new(StmtEnum::Let(pattern, ty.clone(), binding), meta))
                     }
                     Err(mut errors) => {
@@ -1017,7 +1020,10 @@ impl UntypedStmt {
                     let elem_ty = Type::Tuple(vec![elem_ty_a, elem_ty_b]);
                     let mut body_typed = Vec::with_capacity(body.len());
                     env.push();
-                    let pattern = pattern.type_check(env, fns, defs, Some(elem_ty))?;
+                    let pattern = pattern.type_check(env, fns, defs, Some(elem_ty.clone()))?;
+                    // the loop pattern must match every pair
+                    check_exhaustiveness(&[&pattern], &elem_ty, defs, meta)
+                        .map_err(|e| vec![Some(e)])?;
                     for stmt in body {
                         body_typed.push(stmt.type_check(top_level_defs, env, fns, defs)?);
                     }
@@ -1032,7 +1038,10 @@ impl UntypedStmt {
                     let elem_ty = expect_array_type(&binding.ty, meta)?;
                     let mut body_typed = Vec::with_capacity(body.len());
                     env.push();
-                    let pattern = pattern.type_check(env, fns, defs, Some(elem_ty))?;
+                    let pattern = pattern.type_check(env, fns, defs, Some(elem_ty.clone()))?;
+                    // the loop pattern must match every element
+                    check_exhaustiveness(&[&pattern], &elem_ty, defs, meta)
+                        .map_err(|e| vec![Some(e)])?;
                     for stmt in body {
                         body_typed.push(stmt.type_check(top_level_defs, env, fns, defs)?);
                     }
